@@ -587,3 +587,7 @@ kani("models::entropy_is_finite_u8_p8", ["C18"], kind="bounded", bound="uniform 
      text="sanity contract only: entropy_base2 is finite and within [0, P] (the exact value is not decided: transcendental)")
 kani("range::u8_u32_p8::enc_potential", ["C12"], tier="thorough", timeout=7200, fns=[QE],
      text="range potential inequality and <= 1 word per symbol at State = 4 Words (measured: 31 min)")
+for _p in ("p8", "p5"):
+    kani("models::generic_decoder_concrete_" + _p, ["C05"], kind="bounded", bound="one concrete 3-symbol table, every quantile, " + _p,
+         fns=[M + "model.rs::IterableEntropyModel::to_generic_decoder_model", M + "categorical/non_contiguous.rs::NonContiguousCategoricalDecoderModel::from_iterable_entropy_model"],
+         text="to_generic_decoder_model(m).quantile_function(q) == m.quantile_function(q) for every q (incl. PRECISION == Probability::BITS)")
